@@ -145,6 +145,17 @@ class Ctx:
             chunksize = max(1, min(64, len(items) // (self.nproc * 8)))
         return self.pool().map(_guard, [(fn, i) for i in items], chunksize)
 
+    def pmap_nondaemonic(self, fn: Callable, items: list) -> list:
+        """Like pmap, but the workers may start child processes themselves (e.g. redun's process executor)."""
+        import concurrent.futures as cf
+
+        items = list(items)
+        if not items:
+            return []
+        mp = multiprocessing.get_context("fork")
+        with cf.ProcessPoolExecutor(max_workers=self.nproc, mp_context=mp, initializer=_worker_init) as ex:
+            return list(ex.map(_guard, [(fn, i) for i in items]))
+
     def close(self):
         if self._pool is not None:
             self._pool.close()
